@@ -1355,10 +1355,18 @@ cdef class ParticleArray:
         # The indices are particle indices.  copy_subset takes a missing
         # end_index to be the length of the array in values, which is the
         # number of particles only for stride 1: resolve the defaults here.
+        cdef long np_self = self.get_number_of_particles()
         if start_index < 0:
             start_index = 0
         if end_index < 0:
-            end_index = self.get_number_of_particles()
+            end_index = np_self
+        # copy_subset does not compare an explicit range with the source.
+        if (start_index > end_index or end_index > np_self or
+                end_index - start_index > source.get_number_of_particles()):
+            msg = 'copy_properties: particles %d to %d of %d, source has %d' % (
+                start_index, end_index, np_self,
+                source.get_number_of_particles())
+            raise ValueError(msg)
         for prop_name in source.properties:
             if prop_name in self.properties:
                 src_array = source.get_carray(prop_name)
